@@ -76,3 +76,14 @@ Fixpoint replay_view (bv tv : view) (ops : list bop) (m : kv) : kv * bool :=
       | Some o' => replay_view bv tv r (apply (vbop tv o') m)
       end
   end.
+
+(* ---- abstraction used by the refinement theorem ---- *)
+(* the store a table with prefix p stands for: keys with the prefix, prefix stripped *)
+Definition stripfst (p : key) (kx : key * value) : key * value := (strip p (fst kx), snd kx).
+Definition view_kv (p : key) (m : kv) : kv := map (stripfst p) (kfilter (is_prefix p) m).
+(* the part of the store the table must never touch *)
+Definition outside (p : key) (m : kv) : kv := kfilter (fun k => negb (is_prefix p k)) m.
+(* every key below ethdb.MaximumKey (the guard under which a nil range end is "after all keys") *)
+Definition small_kv (m : kv) : Prop := Forall (fun kx => blt (fst kx) maxkey = true) m.
+Definition small_bop (o : bop) : Prop :=
+  match o with BPut k _ => blt k maxkey = true | _ => True end.
